@@ -11,7 +11,7 @@ use std::{
 };
 use tokio::{
     io::{AsyncRead, AsyncWrite},
-    sync::mpsc::{channel, Receiver, Sender},
+    sync::mpsc::{channel, error::TrySendError, Receiver, Sender},
 };
 use tokio_rustls::rustls;
 
@@ -134,12 +134,15 @@ impl AsyncWrite for QuicStream {
     }
 }
 
+// datagrams queued per session before further ones are dropped
+const SESSION_QUEUE: usize = 128;
+
 pub async fn create_quic_frames(
     conn: Connection,
     id: u32,
     sessions: Arc<CHashMap<u32, Sender<Frame>>>,
 ) -> FrameIO {
-    let (tx, rx) = channel(10);
+    let (tx, rx) = channel(SESSION_QUEUE);
     sessions.insert(id, tx).await;
     (QuicFrameReader::new(rx), QuicFrameWriter::new(conn, id))
 }
@@ -232,10 +235,18 @@ pub async fn quic_frames_thread(name: String, sessions: QuicFrameSessions, input
                 let frame = frame.unwrap();
                 let sid = frame.session_id;
                 if let Some(session) = sessions.get(&sid).await {
-                    if session.is_closed() || session.send(frame).await.is_err() {
-                        drop(session);
-                        sessions.remove(&sid).await;
-                        tracing::trace!("quic recv error: sid={}", sid);
+                    // this task serves every session of the connection: never wait for one of them.
+                    // A session that does not keep up loses the datagram, like on any full UDP queue.
+                    match session.try_send(frame) {
+                        Ok(()) => {}
+                        Err(TrySendError::Full(_)) => {
+                            tracing::trace!("quic recv: sid={} queue full, datagram dropped", sid);
+                        }
+                        Err(TrySendError::Closed(_)) => {
+                            drop(session);
+                            sessions.remove(&sid).await;
+                            tracing::trace!("quic recv error: sid={}", sid);
+                        }
                     }
                 }
             },
